@@ -23,6 +23,10 @@ type partial struct {
 	Sums                                               map[string]int64
 }
 
+// ShardChild reports whether this process is a shard worker: everything outside
+// the Sharded body must be skipped there (the parent does it once).
+func (r *Run) ShardChild() bool { return os.Getenv("VERIF_SHARD") != "" }
+
 // Sum adds n to a named counter reported in coverage (merged across shards).
 func (r *Run) Sum(name string, n int64) {
 	r.mu.Lock()
@@ -42,6 +46,18 @@ func (r *Run) Sharded(n, procs int, body func(shard, n int)) {
 		parts := strings.Split(sh, "/")
 		i, _ := strconv.Atoi(parts[0])
 		nn, _ := strconv.Atoi(parts[1])
+		// a child only contributes what the sharded body does: drop anything counted before this call
+		r.mu.Lock()
+		r.Evaluations, r.States, r.Transitions, r.Traces, r.Rejected = 0, 0, 0, 0, 0
+		r.nontrivial = map[string]struct{}{}
+		r.outcomes = map[string]int64{}
+		r.samples = nil
+		r.viol = map[string]*violation{}
+		r.violOrder = nil
+		r.knownHit = map[string]int{}
+		r.knownSeen = map[string]string{}
+		r.sums = nil
+		r.mu.Unlock()
 		body(i, nn)
 		r.mu.Lock()
 		p := partial{Evaluations: r.Evaluations, States: r.States, Transitions: r.Transitions, Traces: r.Traces, Rejected: r.Rejected,
